@@ -612,6 +612,13 @@ Proof. destruct o; cbn; intros H; try discriminate; eauto. Qed.
 Lemma pfound_find o om tm k p : is_rem o = false -> pfound o om tm k p = (om, tm, Z.of_nat (pid p)).
 Proof. destruct o; cbn; intros H; try discriminate; reflexivity. Qed.
 
+Lemma replay_one thr s e : replay thr s [e] = fst (apply_op thr (e_op e) (e_arg e) s).
+Proof. reflexivity. Qed.
+Lemma legal_one thr s e : legal thr s [e] <-> snd (apply_op thr (e_op e) (e_arg e) s) = e_ret e.
+Proof. change (legal thr s [e]) with (snd (apply_op thr (e_op e) (e_arg e) s) = e_ret e /\ True). tauto. Qed.
+Lemma apply_op_OP thr o a s : apply_op thr (OP o) a s = pscan thr o (m_o s) (m_t s) (m_o s) (m_calls s).
+Proof. reflexivity. Qed.
+
 Lemma step_lin g ls t c l g' l' es :
   Inv g ls -> nth_error ls t = Some l -> tstep t c g l = Some (g', l', es) ->
   (mtx g' = None -> cur g' = hist g') /\ (forall u, lin_pc g' (pcof (upd ls t l') u)) /\ legal (throws g') st0 (log g').
@@ -640,4 +647,31 @@ Proof.
     cbn [mtx at_ lin_pc throws log]; try exact I; try exact HLg; try discriminate.
   all: unfold cur, hist, harg in *; cbn [omap tmap calls throws log mtx held] in *.
   all: try (intros Hm; first [exact (HFr Hm) | congruence]).
-  Show.
+  all: try match goal with H : mtx g = None |- _ => pose proof (HFr H) as Hc end.
+  all: try (rewrite apply_op_OP).
+  all: try (destruct HLt as [Ho [Ht [pre [q [suf [Eo EQ]]]]]];
+            assert (lookup k (omap g) = Some q) as Hlk by (rewrite Eo; apply lookup_split; rewrite <- Eo; exact Hso);
+            assert (next_key k (omap g) = first_key suf) as Hnk by (rewrite Eo; apply next_key_split; rewrite <- Eo; exact Hso);
+            rewrite Ho, Ht, <- EQ, pscan_cons;
+            try match goal with H : lookup k (omap g) = Some ?p0 |- _ => assert (p0 = q) by congruence; subst p0 end).
+  - (* simple method *)
+    rewrite <- Hc. unfold apply_op. cbn [m_o m_t m_calls].
+    match goal with H : apply_sop _ _ _ _ = _ |- _ => rewrite H end. reflexivity.
+  - (* begin(): iterator at the first node *)
+    rewrite <- Hc. cbn [m_o m_t m_calls].
+    match goal with H : first_key _ = Some _ |- _ => destruct (first_key_some _ _ H) as [q [suf E]] end.
+    split; [reflexivity|split; [reflexivity|]]. exists [], q, suf. split; [exact E|]. rewrite E at 3. reflexivity.
+  - (* empty map *)
+    rewrite <- Hc. cbn [m_o m_t m_calls].
+    match goal with H : first_key _ = None |- _ => rewrite (first_key_none _ H) end. apply pscan_nil.
+  - (* the predicate throws *)
+    match goal with H : memZ _ _ = true |- _ => rewrite H end. reflexivity.
+  - (* removal of the first match *)
+    match goal with H : memZ _ _ = false |- _ => rewrite H end.
+    match goal with H : ptest _ _ _ _ = true |- _ => rewrite H end.
+    match goal with H : is_rem _ = true |- _ => destruct (is_rem_true _ H) as [kk ->] end. reflexivity.
+  - (* first match found *)
+    match goal with H : memZ _ _ = false |- _ => rewrite H end.
+    match goal with H : ptest _ _ _ _ = true |- _ => rewrite H end.
+    match goal with H : is_rem _ = false |- _ => rewrite (pfound_find _ _ _ _ _ H) end. reflexivity.
+  - Show.
